@@ -150,6 +150,11 @@ func makeTraffic(name string, horizon time.Duration) traffic {
 				period = 20 * time.Second
 			}
 			every(&tr.Peer, peerPhase+time.Duration(p)*70*time.Millisecond, period, 2*p+1)
+			// ... and 25 minutes later (two and a half channel lifetimes of idling) the app speaks once more to the
+			// first 40: their bindings, which all fell due in the same refresh rounds, must have been kept alive
+			if t := appPhase + 25*time.Minute + time.Duration(p)*50*time.Millisecond; p < 40 && t <= horizon {
+				tr.App = append(tr.App, tev{t, 2 * p})
+			}
 		}
 	case "newpeer-at-nonce-expiry":
 		// one write to peer 0 at the start; then, while the hourly nonce goes stale, a first write to a new peer
